@@ -763,7 +763,10 @@ def _violation(res, fn, cfg, opts, solver, p, label, env, detail,
             used_env = Bc.env if 'Bc' in dir() else cand
             outcome = f[1]
             break
-    if not confirmed and lt_ is not None and opts.get('confirm_by_terms'):
+    import re as _re
+    by_terms = bool(opts.get('confirm_by_terms')) or bool(
+        opts.get('terms_labels') and _re.search(opts['terms_labels'], label))
+    if not confirmed and lt_ is not None and by_terms:
         # cases that inspect terms cannot be re-run on floats: the
         # counter-example is confirmed on the terms the real chi code
         # produced (real meaning of log / exp / erf, fixed smooth
@@ -802,8 +805,8 @@ def _violation(res, fn, cfg, opts, solver, p, label, env, detail,
     if confirmed:
         res.violations.append(entry)
     else:
-        if candidates and not label_seen and not opts.get(
-                'confirm_by_terms') and not opts.get('facts_final'):
+        if candidates and not label_seen and not by_terms and not opts.get(
+                'facts_final'):
             # the float run of the case never produced this obligation: the
             # replay cannot speak about it (a defect of the case, reported
             # as such instead of a silent "not reproduced")
